@@ -4,9 +4,8 @@
 (* processors/utils (ContainsRegexPattern, ExtractDomainAndPath, ExtractKeyValuePair) and   *)
 (* the parameter plumbing of processor_util.go / public-types/stream.go.                    *)
 (* Bug names a deliberately wrong variant (non-vacuity of the conformance check).           *)
-EXTENDS ProcFilterP
+EXTENDS ProcFilterP, ProcBug
 
-CONSTANT Bug
 
 \* ---- parameters: every declared parameter is present (written value or declared default); a value of another type reads as zero
 IFV(par, p) == IF p \in Given(par) THEN par[p] ELSE Decl("Filter")[p].def
